@@ -301,6 +301,32 @@ class PropertiesDataBounds(PropertiesData):
 
         return out
 
+    def get_filenames(self):
+        """Return the name of the file or files containing the data.
+
+        The names of the files containing the bounds data and the
+        interior ring data, if present, are included.
+
+        :Returns:
+
+            `set`
+                The file names in normalised, absolute form. If all of
+                the data are in memory then an empty `set` is
+                returned.
+
+        """
+        out = super().get_filenames()
+
+        bounds = self.get_bounds(None)
+        if bounds is not None:
+            out.update(bounds.get_filenames())
+
+        interior_ring = self.get_interior_ring(None)
+        if interior_ring is not None:
+            out.update(interior_ring.get_filenames())
+
+        return out
+
     @_inplace_enabled(default=False)
     def apply_masking(self, bounds=True, inplace=False):
         """Apply masking as defined by the CF conventions.
